@@ -172,6 +172,10 @@ def judge(col, k, N, d, flips, e, out, pm):
             col.ev("data_checks")
             if o != d:
                 bad("disabled/data-changed", "enable = 0, nothing flipped, o != data")
+            if sec or ded:
+                # no bit was flipped: under either reading of the statement (flags follow the flips / flags are off when
+                # checking is disabled) nothing may be signalled
+                bad("disabled/error-flag-on-clean-word", "enable = 0, nothing flipped, sec = %d ded = %d" % (sec, ded))
         elif w == 1:
             diff = o ^ d
             col.ev("disabled_single_flips")
